@@ -437,6 +437,18 @@ func r20_4(c *Ctx, rule string) {
 		nput++
 		_, isDefer := call.(*ssa.Defer)
 		c.R.Check(isDefer, rule, c.siteName(call)+"/deferred", c.pos(call), "returned to the pool at function exit", "the receive buffer is returned to the pool inline: another goroutine may overwrite it while it is still being unmarshalled")
+		// "at function exit" must be the exit of the function the message is
+		// decoded in: a helper that takes the buffer, defers the Put and
+		// returns the buffer hands out memory that is already back in the pool
+		if isDefer {
+			decodes := false
+			eng.Instrs(call.Parent(), func(in ssa.Instruction) {
+				if ci, ok := in.(ssa.CallInstruction); ok && ci.Common().IsInvoke() && strings.HasSuffix(c.P.CalleeName(ci), ").Unmarshal") {
+					decodes = true
+				}
+			})
+			c.R.Check(decodes, rule, c.siteName(call)+"/outlives-decoding", c.pos(call), "the function whose exit returns the buffer is the one that decodes it", "the buffer goes back to the pool when "+c.name(call.Parent())+" returns, but the message is decoded after that: a receive on another stream can overwrite the bytes being decoded")
+		}
 	}
 	c.R.Floor(rule, "pool returns in RecvMsg", nput, 1)
 	for _, call := range c.P.CallsTo(rm, "invoke:Unmarshal") {
